@@ -256,8 +256,9 @@ def run(a):
     c.cov["rule"] = ("every op line is executed on the ART buffer and on the RBT buffer (result `art=… rbt=…`, collapsed when equal) and on the Lean "
                      "VLog model; cases = op sequences from one `reset`; exhaustive short sequences over a 6-key pool + seeded random sequences over an "
                      "adversarial key pool + a directed family that fills the value log to the arena block boundaries (4 KiB, then doubling), stages values that spill "
-                     "into the next block and reads exactly those keys through every snapshot path, history and stage inspection; property ops: cleanup/revert view oracle, snapshot-ignores-staged oracle, evaluated per tree")
-    c.assumptions = ["radix-tree / red-black-tree node algorithms are not modelled (tied only by the differential)",
+                     "into the next block and reads exactly those keys through every snapshot path, history and stage inspection; a direct differential of the "
+                     "radix tree's node containers (n* ops: addChild/findChild/replaceChild/iteration across 4/16/48/256 in several insertion orders); property ops: cleanup/revert view oracle, snapshot-ignores-staged oracle, evaluated per tree")
+    c.assumptions = ["radix-tree path logic (prefix compression, in-place leaves) and the red-black tree are not modelled (tied only by the differential); the node4/16/48/256 containers are (Model/ArtNode.lean)",
                      "vlog addresses are modelled as log indices; arena block arithmetic is covered by the differential only (values crossing the 4 KiB block)",
                      "RevertToCheckpoint is only issued for checkpoints at or above the top staging mark and not beyond the current log end (other uses loop on garbage headers)",
                      "sequence-number invalidation (iterator after write, stale GetSnapshot) exists only in ART; those ops observe ART only"]
